@@ -33,6 +33,17 @@ def sliceIndices (n : Nat) (start stop step : Option Int) : Except PyErr (List N
 
 abbrev SliceDict := List (String × Sel)
 
+/-- `[f x for x in l]` where `f` may raise: the first error wins, otherwise all results in order -/
+def mapME {β γ : Type} (f : β → Except PyErr γ) : List β → Except PyErr (List γ)
+  | [] => .ok []
+  | x :: xs =>
+    match f x with
+    | .error e => .error e
+    | .ok y =>
+      match mapME f xs with
+      | .error e => .error e
+      | .ok ys => .ok (y :: ys)
+
 /-- `__validate_slice_dict`: unknown label → KeyError, unsupported value type → TypeError -/
 def validate (labels : List String) : SliceDict → Except PyErr Unit
   | [] => .ok ()
@@ -51,9 +62,9 @@ def axisSelect (n : Nat) : Sel → Except PyErr (Option Nat × List Nat)
     if j < 0 ∨ j ≥ n then .error .indexErr else .ok (some j.toNat, [j.toNat])
   | .slice a b s => do let l ← sliceIndices n a b s; return (none, l)
   | .list l => do
-    let idx ← l.mapM (fun i =>
+    let idx ← mapME (fun i =>
       let j := if i < 0 then i + (n : Int) else i
-      if j < 0 ∨ j ≥ n then Except.error PyErr.indexErr else Except.ok j.toNat)
+      if j < 0 ∨ j ≥ n then Except.error PyErr.indexErr else Except.ok j.toNat) l
     return (none, idx)
   | .tuple _ => .error .typeErr          -- dask rejects a tuple inside the index tuple
   | .other => .error .typeErr
@@ -71,7 +82,7 @@ def sliceND (view : NDArr α) (labels : List String) (sd : SliceDict) : Except P
   let sels := labels.map (fun lab => (sd.lookup lab).getD (Sel.slice none none none))
   -- dask: more than one list selector is "nd fancy indexing" → NotImplementedError
   if (sels.filter (fun s => match s with | .list _ => true | _ => false)).length > 1 then throw .notImpl
-  let per ← (List.range sels.length).mapM (fun ax => axisSelect (view.shape.getD ax 0) (sels.getD ax .other))
+  let per ← mapME (fun ax => axisSelect (view.shape.getD ax 0) (sels.getD ax .other)) (List.range sels.length)
   let kept := per.map (·.2)
   let shape := (per.filter (fun p => p.1.isNone)).map (fun p => p.2.length)
   return { shape := shape, flat := (cartesian kept).map (fun idx => view.get idx) }
@@ -102,14 +113,13 @@ def posSpecSlices (posInds specIndsT : List (List Nat)) (posLabs specLabs : List
     (sd : SliceDict) : Except PyErr (List Nat × List Nat) := do
   validate (posLabs ++ specLabs) sd
   -- errors are raised in the order of the dictionary
-  for kv in sd do
-    let idx := (posLabs ++ specLabs).findIdx (· == kv.1)
-    let _ ← expandSel ((posSizes ++ specSizes).getD idx 0) kv.2
+  let _ ← mapME (fun (kv : String × Sel) =>
+    expandSel ((posSizes ++ specSizes).getD ((posLabs ++ specLabs).findIdx (· == kv.1)) 0) kv.2) sd
   let selOf (labs : List String) (sizes : List Nat) : Except PyErr (List (List Nat)) :=
-    (List.range labs.length).mapM (fun d =>
+    mapME (fun d =>
       match sd.lookup (labs.getD d "") with
       | none => .ok (List.range (sizes.getD d 0))
-      | some s => expandSel (sizes.getD d 0) s)
+      | some s => expandSel (sizes.getD d 0) s) (List.range labs.length)
   let ps ← selOf posLabs posSizes
   let ss ← selOf specLabs specSizes
   return (selectedRows posInds ps, selectedRows specIndsT ss)
